@@ -19,6 +19,10 @@ references and positive scales s1, s2 that must cancel):
  FLOW       constructor options reach every estimate() call (shared with C07).
 Not decided: FAMC, FQA, Tilt/e-compass/am2q/acc2q exactness (chains of arctan2, sign, clip with data-dependent branches -
 only their twins are compared, C07), convergence of the Newton / power iterations, singular poses.
+Added after the seeding rounds (DESIGN.md 6.6-6.8):
+ AM2Q / AQUA.tilt / TILT.repr / ECOMPASS / POSE-DIV / OLEQ.matrix  dcm2quat answers in one direction on every decision path; AQUA's tilt fix on both arms;
+            Tilt's three representations agree; ecompass is a proper rotation in both frames; no pose-dependent divisor in the singularity-free class;
+            one interpreted step of OLEQ multiplies by 1/2 (I + a0 W1 + a1 W2).
 """
 import ast
 import numpy as np
